@@ -89,7 +89,12 @@ def discharge(ob, axioms, use_cvc5=True, both=False):
     """Sets ob.verdict in {'proved','refuted','unknown','covered','vacuous'}."""
     t0 = time.time()
     orig_hyps, orig_goal = ob.hyps, ob.goal
-    hyps, goal, subs = normalize_tags(ob.hyps, ob.goal if z3.is_expr(ob.goal) else z3.BoolVal(bool(ob.goal)))
+    g0 = ob.goal if z3.is_expr(ob.goal) else z3.BoolVal(bool(ob.goal))
+    if any(_has_quant(h) for h in ob.hyps) or _has_quant(g0):
+        # keep accessor applications such as a(x) intact: they are the triggers of quantified hypotheses
+        hyps, goal, subs = list(ob.hyps), g0, []
+    else:
+        hyps, goal, subs = normalize_tags(ob.hyps, g0)
     ob = _Shadow(ob, hyps + [c == r for c, r in subs], goal)
     try:
         return _discharge(ob, axioms, use_cvc5, both, t0)
@@ -120,12 +125,14 @@ class _Shadow:
 
 def _discharge(ob, axioms, use_cvc5, both, t0):
     goal = ob.goal
+    quantified = any(_has_quant(h) for h in ob.hyps) or _has_quant(goal)
     if ob.kind == "cover":
-        s = _solver(axioms, ob.hyps, Z3_TIMEOUT_MS)
+        hyps = [h for h in ob.hyps if not _has_quant(h)] if quantified else ob.hyps
+        s = _solver(axioms, hyps, Z3_TIMEOUT_MS)
         if not z3.is_true(goal):
             s.add(goal)
         r = s.check()
-        ob.backend = "z3"
+        ob.backend = "z3" + (" (ground part of the preconditions)" if quantified else "")
         if r == z3.sat:
             ob.verdict = "covered"
         elif r == z3.unsat:
@@ -144,6 +151,30 @@ def _discharge(ob, axioms, use_cvc5, both, t0):
         ob.backend = "simplifier"
         ob.time_s = time.time() - t0
         return ob
+    if quantified:
+        # quantified hypotheses: E-matching only (no model-based instantiation). unsat is a proof;
+        # saturation without contradiction leaves a *candidate* counter-model that only counts once
+        # it has been replayed on the real code.
+        s = _solver(axioms, ob.hyps, min(Z3_TIMEOUT_MS, 15000))
+        s.set("smt.mbqi", False)
+        s.set("auto_config", False)
+        s.add(z3.Not(goal))
+        r = s.check()
+        if r == z3.unsat:
+            ob.verdict = "proved"
+            ob.backend = "z3 (e-matching)"
+            ob.time_s = time.time() - t0
+            return ob
+        if r == z3.unknown and "incomplete" in s.reason_unknown():
+            try:
+                ob.model = s.model()
+                ob.verdict = "refuted"
+                ob.info["candidate"] = True
+                ob.backend = "z3 (e-matching saturated: candidate counter-model)"
+                ob.time_s = time.time() - t0
+                return ob
+            except z3.Z3Exception:
+                pass
     s = _solver(axioms, ob.hyps, Z3_TIMEOUT_MS)
     s.add(z3.Not(goal))
     r = s.check()
@@ -180,6 +211,12 @@ def _discharge(ob, axioms, use_cvc5, both, t0):
                     ob.backend = "cvc5 (no model)"
     ob.time_s = time.time() - t0
     return ob
+
+
+def _has_quant(f):
+    from .engine import _has_quant as hq
+
+    return hq(f)
 
 
 class M:
